@@ -62,6 +62,7 @@ class Ctx:
         self.solver_time = 0.0
         self.violations = []; self.known = []; self.inconclusive = []; self.errors = []
         self.samples = []; self.functions = set(); self.stubs = set(); self.cuts = set()
+        self.native_failures = []
         self.validation = []; self.witness = []; self.jobs_log = []; self.max_rss_kb = 0
         self.extra = {}
         try:
@@ -135,7 +136,12 @@ class Ctx:
                 same = a.stdout == b.stdout and a.returncode == b.returncode
                 good = same and a.returncode in (0, 3)      # 3 = vector rejected by an ASSUME in both
                 self.validation.append(dict(harness=h, salt=s, agree=same, rc=a.returncode, outputs=len(a.stdout.splitlines())))
-                if not good:
+                if same and a.returncode == 1 and "CHECK-FAIL" in b.stdout:
+                    # both builds agree and the REAL code fails a harness CHECK on this concrete vector: a counterexample, not a translator problem
+                    ok = False
+                    fails = sorted(set(l for l in b.stdout.splitlines() if l.startswith("CHECK-FAIL")))
+                    self.native_failures.append(dict(harness=h, vector=vec, replay_cmd="%s %s %s" % (real_bin, h, vec), checks=fails[:5]))
+                elif not good:
                     ok = False
                     self.errors.append("translator validation: %s salt %d: gen rc=%d real rc=%d\n gen: %s\n real: %s" % (h, s, a.returncode, b.returncode, a.stdout[-400:], b.stdout[-400:]))
         return ok
@@ -318,6 +324,17 @@ class Ctx:
         for e in self.errors[:10]: print("ERROR:", e)
         for e in self.inconclusive[:10]: print("INCONCLUSIVE:", e)
         return rc
+
+    def account_native_failures(self):
+        """concrete vectors on which the real code failed a harness CHECK during the native differential runs"""
+        seen = set()
+        for nf in self.native_failures:
+            if nf["harness"] in seen: continue
+            seen.add(nf["harness"])
+            self.obligations += 1
+            self.record_violation(dict(obligation="native run of %s on a fixed input vector: all harness CHECKs hold" % nf["harness"], harness=nf["harness"],
+                                       replay_cmd=nf["replay_cmd"], replay_on_real_code="\n".join(nf["checks"]), confirmed_on_real_code=True,
+                                       summary="the g++ build of the real code fails %s on vector %s: %s" % (nf["harness"], nf["vector"], "; ".join(nf["checks"])[:300])))
 
     def account_jobs(self, results, describe):
         """fold cbmc job results into the counters; describe(job) -> obligation text. Returns list of (job, result) violations"""
